@@ -64,7 +64,9 @@ echo "== demo with patch" >> $log
 echo "exit=$r1" >> $log
 cd /repo && git worktree remove --force $wt
 # check against /repo
+cp /verif/evidence/$id.json /tmp/confirm_$name.evidence.bak 2>/dev/null
 cd /repo && git apply $src/patch.diff && (cd /verif && ./check $id quick > /tmp/confirm_$name.check 2>&1; echo "check-exit=$?" >> $log); git -C /repo checkout -- .
+cp /tmp/confirm_$name.evidence.bak /verif/evidence/$id.json 2>/dev/null
 grep -E "FAILED|UNDECIDED|VACUOUS|violations" /tmp/confirm_$name.check | cut -c1-200 >> $log
 echo "RESULT $name: demo_without=$r0 existing_tests=$bt demo_with=$r1 $(grep check-exit $log)"
 if [ $r0 -eq 0 ] && [ $bt -eq 0 ] && [ $r1 -ne 0 ]; then
